@@ -3,7 +3,7 @@ import re
 import absint
 from engines import kind_elements, is_tracing
 from engines import check_required_steps
-from engines import check_complete_iteration
+from engines import check_complete_iteration, for_loops, check_every_element, assignments_to, source_local, loop_skip_path
 from prov import Prov, params_of, field_names
 
 CLAIM = ("(ROLE) in both inner enrichment functions Hypergeometric::new receives (N = size of the background, K = background count of the annotation, "
@@ -188,6 +188,37 @@ def run(ck, prog, ctx):
     ck.floor("ROLE", "inner enrichment functions", n_inner, 2)
 
     check_complete_iteration(ck, "ROLE", prog, INNER + ["stats::calculate_counts"] + [b.id for b in prog.find(r"^stats::SampleSet::<.*>::(gene|omim_disease|orpha_disease)$")], "the sample / the annotations of a term")
+
+    # ---- the population / sample size counts EVERY term, each annotation of every term is counted
+    cc = prog.body("stats::calculate_counts")
+    if cc is None:
+        ck.undecided("ROLE", "counts/every-term", "private helper stats::calculate_counts not found")
+    else:
+        loops = for_loops(cc)
+        outer = [l for l in loops if not any(l is not m and l["blocks"] < m["blocks"] for m in loops)]
+        inner = [l for l in loops if any(l is not m and l["blocks"] < m["blocks"] for m in loops)]
+        ret = [st for _, st in cc.stmts() if st.k == "assign" and st.place.is_local() and st.place.local == 0 and st.rv["k"] == "agg" and st.rv["agg"] == "tuple" and len(st.rv["ops"]) == 2]
+        if len(outer) != 1 or len(ret) != 1 or params_of(pv.of_operand(cc, outer[0]["iter"]), cc.id) != {1}:
+            ck.undecided("ROLE", "counts/every-term", "calculate_counts is not one `for` loop over its `terms` parameter returning (size, counts)", where=cc.where())
+        else:
+            lp = outer[0]
+            size_l = source_local(cc, ret[0].rv["ops"][0], pv)
+            steps = assignments_to(cc, size_l, lp["blocks"]) if size_l is not None else set()
+            incs = [st for _, st in cc.stmts() if st.k == "assign" and st.rv["k"] == "bin" and st.rv["op"].startswith("Add") and st.rv["r"].kind == "const" and st.rv["r"].int_value() == 1
+                    and st.rv["l"].place is not None and source_local(cc, st.rv["l"], pv) == size_l]
+            ck.ob("ROLE", "counts/size-step", len(incs) == 1, "the returned size is incremented by the constant 1 (%d increment site(s))" % len(incs), where=cc.where())
+            check_every_element(ck, "ROLE", "counts/size", cc, lp, steps, "size += 1", "the terms (population / sample size N, n)")
+            if len(inner) == 1:
+                il = inner[0]
+                cnt = {bi for bi, t in cc.calls() if bi in il["blocks"] and t.callee.method in ("entry", "insert", "get_mut") and "HashMap" in (t.callee.name or "")}
+                check_every_element(ck, "ROLE", "counts/annotation", cc, il, cnt, "counts[id] += 1", "the annotations of one term")
+                # a guard around the inner loop may be harmless (skipping a term without annotations): not armed, only recorded
+                if loop_skip_path(cc, lp, {il["header"]}):
+                    ck.undecided("ROLE", "counts/annotations-of-term", "the loop over a term's annotations is bypassed on some path of the outer loop; whether the bypassed terms have annotations is not decided", where=cc.where(il["line"]))
+                else:
+                    ck.ob("ROLE", "counts/annotations-of-term", True, "the annotations of every term are counted (no path of the outer loop bypasses the inner loop)", where=cc.where(il["line"]))
+            else:
+                ck.undecided("ROLE", "counts/annotation", "expected one inner loop over the annotations of a term, found %d" % len(inner), where=cc.where())
 
     for fid in INNER:
         b_ = prog.body(fid)
